@@ -39,6 +39,8 @@ def qualifier(inv, case, rec):
         return 'pairwise-unreachable' if case.get('unreach_mode') == 'pairwise' else 'location-unreachable'
     if inv == 'LimitDuration':
         return 'travel-only' if case.get('travel_only') else 'service-or-waiting'
+    if inv in ('PlacesAndWindows', 'ShiftEnd') and not case.get('metric', True):
+        return 'non-metric-matrix'
     return 'general'
 
 
